@@ -13,9 +13,10 @@ chmod +x tools/shim/rustc check
 python3 - <<'PY'
 import sys
 sys.path.insert(0, ".")
-from vlib import core, mir
+from vlib import core, mir, witness
 core.get_repo()
 mir.get_mir()
-print("facts ok")
+r = witness.run_all()
+print("facts ok;", sum(1 for v in r.values() if v["ok"]), "of", len(r), "witnesses as expected")
 PY
 echo "setup ok"
